@@ -229,6 +229,13 @@ func (w *When) Eval(args ...interface{}) []interface{} {
 	if err != nil {
 		panic("Call Eval(...) error: " + err.Error())
 	}
+	if isVariadic {
+		// 与真实调用保持一致: 可变参数以数组形式作为最后一个入参
+		nFixed := len(argsTypes) - 1
+		variadic := reflect.MakeSlice(argsTypes[nFixed], 0, len(argVs)-nFixed)
+		variadic = reflect.Append(variadic, argVs[nFixed:]...)
+		argVs = append(append([]reflect.Value{}, argVs[:nFixed]...), variadic)
+	}
 	resultVs := w.invoke(argVs)
 	return arg.V2I(resultVs, outTypes(w.funcTyp))
 }
